@@ -8,6 +8,7 @@
 //!  (4) 256 wrong passwords are rejected;
 //!  (5) long-term keys: equal for OpaqueString-equivalent spellings of realm / password, and equal to MD5 / SHA-256 of
 //!      user:realm:password for plain ASCII.
+use std::convert::TryFrom;
 use stun_rs::attributes::stun::{Fingerprint, MessageIntegrity, MessageIntegritySha256, Software, UserName};
 use stun_rs::methods::BINDING;
 use stun_rs::{Algorithm, AlgorithmId, DecoderContextBuilder, HMACKey, MessageClass, MessageDecoderBuilder, MessageEncoderBuilder, StunAttribute, StunMessageBuilder, TransactionId};
@@ -93,6 +94,28 @@ fn main() {
         for k in 0..256u32 {
             let wrong = HMACKey::new_short_term(format!("{}{}", pass, k)).unwrap();
             if accepted(&buf, &wrong) { println!("WITNESS: tail {}: accepted under the wrong password '{}{}'", name, pass, k); bad += 1; break; }
+        }
+        if bad > 4 { break; }
+    }
+    // every message class and a few methods: the same acceptance rule (genuine accepted; one flipped bit of the prefix, one of the
+    // MAC, and a wrong key rejected)
+    for class in [MessageClass::Request, MessageClass::Indication, MessageClass::SuccessResponse, MessageClass::ErrorResponse] {
+        for method in [0x001u16, 0x003, 0x0FFF] {
+            for sha256 in [false, true] {
+                let mut b = StunMessageBuilder::new(stun_rs::MessageMethod::try_from(method).unwrap(), class).with_transaction_id(TransactionId::from([9u8; 12]))
+                    .with_attribute(Software::new("class probe").unwrap());
+                b = if sha256 { b.with_attribute(MessageIntegritySha256::new(key.clone())) } else { b.with_attribute(MessageIntegrity::new(key.clone())) };
+                let mut buf = vec![0u8; 256];
+                let n = MessageEncoderBuilder::default().build().encode(&mut buf, &b.build()).expect("encode");
+                buf.truncate(n);
+                let what = format!("{:?} method {:#05x} {}", class, method, if sha256 { "MESSAGE-INTEGRITY-SHA256" } else { "MESSAGE-INTEGRITY" });
+                if !accepted(&buf, &key) { println!("WITNESS: {}: the genuine message is not accepted", what); bad += 1; continue; }
+                let mut t1 = buf.clone(); t1[25] ^= 0x04;
+                let mut t2 = buf.clone(); let l = t2.len(); t2[l - 1] ^= 0x80;
+                if accepted(&t1, &key) { println!("WITNESS: {}: accepted after a bit of the protected text was flipped", what); bad += 1; }
+                if accepted(&t2, &key) { println!("WITNESS: {}: accepted after a bit of the MAC was flipped", what); bad += 1; }
+                if accepted(&buf, &HMACKey::new_short_term("the-passwore").unwrap()) { println!("WITNESS: {}: accepted under a key differing in one character", what); bad += 1; }
+            }
         }
         if bad > 4 { break; }
     }
